@@ -192,6 +192,12 @@ func registerDisp(prop, rule string) {
 			if prop == "C10" {
 				jobs = append(jobs, twoProvJob(prop, depth4(tier)))
 			}
+			if prop == "C11" {
+				for _, f := range []string{"s1", "s2", "prov", "cancel"} {
+					f := f
+					jobs = append(jobs, mc.Job{Name: "C11-closefail/first-" + f, Weight: 5, Run: func(r *mc.Report) { c12Seq(r, []string{f}, "C11") }})
+				}
+			}
 			{
 				pb := 2
 				if tier == "thorough" {
@@ -403,7 +409,7 @@ type c12Case struct {
 	Skip  int      `json:"skip"` // bit i set: resolution i of the setup is not performed (that scope owns less)
 }
 
-func c12Seq(r *mc.Report, firsts []string) {
+func c12Seq(r *mc.Report, firsts []string, prop string) {
 	run := func(c c12Case) {
 		var e *Env
 		spec := c12Spec()
@@ -450,9 +456,17 @@ func c12Seq(r *mc.Report, firsts []string) {
 		r.Transitions += int64(len(e.Results))
 		r.Outcome(fmt.Sprintf("first=%s fail=%d skip=%d | %s", c.First, len(c.Fail), c.Skip, closeSummary(e)))
 		fs := append(genericFindings(e, s), c12Oracle(e, s)...)
+		if prop == "C11" {
+			// the same fault sequences under the ORDER oracle: a failing Close somewhere in
+			// the tree must not change the order in which everything else is disposed
+			fs = dispFilter("C11", append(append(genericFindings(e, s), e.OrderOracle()...), e.HeldOpenOracle()...))
+		}
 		// sequential expectations: first close's verdict, later closes nil
 		seen := map[string]bool{}
 		for _, rr := range e.Results {
+			if prop == "C11" {
+				break
+			}
 			if rr.Op.Kind != "close" || rr.Skipped {
 				continue
 			}
@@ -561,7 +575,7 @@ func c12Jobs(tier string) []mc.Job {
 	jobs = append(jobs, mc.Job{Name: "C12-reentrant-close", Run: c12Reentrant})
 	for _, f := range []string{"s1", "s2", "s3", "prov", "cancel"} {
 		f := f
-		jobs = append(jobs, mc.Job{Name: "C12-seq/first-" + f, Weight: 5, Run: func(r *mc.Report) { c12Seq(r, []string{f}) }})
+		jobs = append(jobs, mc.Job{Name: "C12-seq/first-" + f, Weight: 5, Run: func(r *mc.Report) { c12Seq(r, []string{f}, "C12") }})
 	}
 	pb := 2
 	if tier == "thorough" {
